@@ -121,7 +121,7 @@ rule: opt\\.length_field\\(\\) ==> OPT_length_field(opt)
 rule: opt\\.data_ptr\\(\\), opt\\.data_size\\(\\) ==> OPT_data_ptr(opt), OPT_data_size(opt)
 rule: stream\\.write_be<uint16_t>\\( ==> OMS_write_be_uint16_t(stream, 
 rule: stream\\.write\\((OPT_data_ptr.*?)\\); ==> OMS_write_buf(stream, \\1);
-mutant: stream\\.write_be<uint16_t>\\(opt\\.length_field\\(\\)\\); ==> stream.write<uint16_t>(opt.length_field());
+mutant: stream\\.write_be<uint16_t>\\(opt\\.length_field\\(\\)\\); ==> stream.write_be<uint16_t>(opt.length_field() + 1);
 //@ endfunc
 //@ func src/dhcpv6.cpp DHCPv6::write_serialization
 sig: static void DHCPv6_write_serialization(DHCPv6* this, uint8_t* buffer, uint32_t total_sz)
